@@ -563,6 +563,12 @@ Fixpoint link_check (senders receivers : list node) : res unit :=
       then link_check ss receivers else RErr ValueError
   end.
 
+(* Model.fit: `if not any([n for n in self.trainable_nodes if n.is_trained_offline]): raise TypeError` is the FIRST
+   statement — before to_data_mapping / _initialize_on_sequence — so a model without offline learner is refused with
+   every node as it was.  (What an accepted Model.fit does is the subject of other properties.) *)
+Definition model_fit_guard (nodes : list node) : option (exn * list node) :=
+  if existsb (fun n => has_offline (nkind n)) nodes then None else Some (TypeError, nodes).
+
 (* ---------------------------------------------------------------------------------- history (pre-fix behaviour) *)
 (* Before 164b89d, Delay.initialize filled the deque with the 1-D rows of np.zeros((delay, dim)), which forward pops
    during the first [delay] steps; before 9c754c0 a single-target scikit-learn estimator's 1-D prediction became the state. *)
